@@ -769,7 +769,7 @@ Proof.
 Qed.
 
 Theorem render_model_holds c : render_model_ok c = true ->
-  render_holds_gen false c = true /\ (fst (fst (fst c)) = false -> render_holds c = true).
+  render_holds_gen false c = true /\ (fst (fst (fst (fst c))) = false -> render_holds c = true).
 Proof.
   destruct c as [[[[legacy rgb] smulx] cells] o]; unfold render_holds, render_model_ok, render_holds_gen; cbn [fst].
   destruct (forallb wf_pcellb cells) eqn:W; [|split; reflexivity].
